@@ -4,7 +4,7 @@ import contextlib
 from qce_circuit.addon_openql.factory_manager import to_openql
 from qce_circuit.addon_openql import platform_manager as pm
 from mc import world
-from mc.engine import Family, Res
+from mc.engine import Family, Res, HarnessError
 from mc.interp import build, count_events
 from mc.props.c05 import AllClassSpace
 from mc.ref.openql_tr import translate_block, RecProgram, RecKernel
@@ -25,6 +25,8 @@ KF_DUP = 'known:duplicate-kernel-name'
 
 @contextlib.contextmanager
 def recording_platform():
+    if 'construct_program' not in pm.PlatformManager.__dict__ or 'construct_kernel' not in pm.PlatformManager.__dict__:
+        raise HarnessError('PlatformManager.construct_program / construct_kernel no longer exist; the recording platform cannot be installed')
     saved = (pm.PlatformManager.__dict__['construct_program'], pm.PlatformManager.__dict__['construct_kernel'])
     pm.PlatformManager.construct_program = classmethod(lambda cls, name: RecProgram(name))
     pm.PlatformManager.construct_kernel = classmethod(lambda cls, name: RecKernel(name))
@@ -57,6 +59,8 @@ def judge(res, prog, c, label):
         p2 = to_openql(c)
         p3 = to_openql(c, circuit_id='verif_id')
         p4 = to_openql(c, circuit_id='verif_id')
+    if not isinstance(p1, RecProgram):
+        raise HarnessError('to_openql did not build its program through PlatformManager.construct_program; the export cannot be recorded')
     obs = p1.linear()
     if p1.names() != p2.names() or p1.linear() != p2.linear():
         res.fail('C15-nondeterministic', '%s %r: exporting twice gives different names or programs: %r vs %r' % (label, prog, p1.names(), p2.names()))
